@@ -13,4 +13,19 @@ def run_groups(run_, ctx, items, config="A"):
     total = 0
     for rule, group, only, what in items:
         total += glue.check_group2(run_, rule, F, pc, group, exp, only=only, what=what)
+    if getattr(ctx, "tier", "quick") == "thorough" and config == "A":
+        # thorough: the same groups in the second feature configuration (postcard alone with use-std + embedded-io 0.4): bodies that are
+        # compiled differently there (cfg'd imports, the other embedded-io version, no use-crc/heapless) are judged against their own specification
+        try:
+            FB = ctx.facts("B")
+            pcb = FB.crate("postcard")
+            expb = glue.load2("B")
+            if "B" not in run_.configs:
+                run_.configs.append("B")
+                run_.bodies += len(pcb.fns)
+            for rule, group, only, what in items:
+                if expb.get(group):
+                    total += glue.check_group2(run_, rule + "@B", FB, pcb, group, expb, only=only, what=(what or "") + " [configuration B]")
+        except Exception as e:  # the quick verdict stands; say why the deeper pass did not run
+            run_.note("configuration B not analysed in the thorough tier: %s: %s" % (type(e).__name__, e))
     return total
